@@ -242,6 +242,8 @@ pub fn check_props<PP: Props + ?Sized>(p: &PP, ctl: &Ctl, cx: &mut Cx) -> Result
     }
 
     // ---- get / pull
+    // inside the class of a listed finding every way `get` can disagree with L is one signature
+    let get_sig = |specific: &str| if pre.is_empty() { specific.to_string() } else { format!("{pre}get-disagrees-with-enumeration") };
     for (n, k) in all.iter().enumerate() {
         let expected = first(k);
         // alternate the `ToStr` flavour the key is passed as
@@ -255,14 +257,14 @@ pub fn check_props<PP: Props + ?Sized>(p: &PP, ctl: &Ctl, cx: &mut Cx) -> Result
             (Some(e), Some(g)) if e == g => {}
             (Some(e), None) => {
                 cx.fail(
-                    format!("{pre}get/none-for-enumerated-key"),
+                    get_sig("get/none-for-enumerated-key"),
                     format!("{what}: enumeration yields {k:?}={} but get({k:?}) is None; L={}", e.disp, short(&l)),
                 )?;
                 continue;
             }
             (None, Some(g)) => {
                 cx.fail(
-                    format!("{pre}get/some-for-key-never-enumerated"),
+                    get_sig("get/some-for-key-never-enumerated"),
                     format!("{what}: get({k:?}) = {} but enumeration never yields that key; L={}", g.disp, short(&l)),
                 )?;
                 continue;
@@ -271,7 +273,7 @@ pub fn check_props<PP: Props + ?Sized>(p: &PP, ctl: &Ctl, cx: &mut Cx) -> Result
                 let later = l.iter().filter(|(k2, _)| k2 == k).any(|(_, o)| o == g);
                 let sig = if later { "get/not-the-first-enumerated-value" } else { "get/value-never-enumerated-for-key" };
                 cx.fail(
-                    format!("{pre}{sig}"),
+                    get_sig(sig),
                     format!("{what}: get({k:?}) = {} ({:?}) but the first enumerated value is {} ({:?}); L={}", g.disp, g.casts, e.disp, e.casts, short(&l)),
                 )?;
                 continue;
